@@ -424,6 +424,10 @@ namespace occa {
       dtypeMap["int64"]  = dtype::get<int64_t>().ref;
       dtypeMap["uint64"] = dtype::get<uint64_t>().ref;
 
+      // C types known to OKL
+      dtypeMap["size_t"]    = dtype::get<size_t>().ref;
+      dtypeMap["ptrdiff_t"] = dtype::get<ptrdiff_t>().ref;
+
       // OKL Primitives
       dtypeMap["uchar2"] = &dtype::uchar2;
       dtypeMap["uchar3"] = &dtype::uchar3;
